@@ -1,6 +1,7 @@
 import datetime
 import decimal
 import functools
+import itertools
 import math
 import re
 
@@ -843,14 +844,19 @@ class ValueDecimal(Value):
 
 @functools.total_ordering
 class ValueFunc(Value):
+    serial = itertools.count()
+
     def __init__(self, name):
         self.name = name
         self.secure = True
+        self.created = next(ValueFunc.serial)
 
     def __hash__(self):
         # functions are equal only to themselves; the name can change
-        # (def g = f renames f), so it must not enter the hash
-        return id(self) >> 4
+        # (def g = f renames f), so it must not enter the hash. The
+        # creation number is the same in every run of a program, unlike
+        # the memory address.
+        return self.created
 
     def __eq__(self, other):
         return self is other
